@@ -14,8 +14,6 @@ use crate::rng::Rng;
 use crate::util::{diff_window, hex};
 use crate::Cfg;
 use comrak::{format_commonmark, format_html, format_xml};
-use std::io::Write;
-use std::process::{Command, Stdio};
 
 /// (html, xml, commonmark) of one subject, computed from scratch (parse or build, then format).
 pub fn render_all(src: &Src, o: &Opts) -> Result<[Vec<u8>; 3], String> {
@@ -110,41 +108,43 @@ pub fn push_case<'a>(bt: &mut Batch<'a>, rep: &mut Report, o: Opts, src: Src, na
     }
 }
 
-/// `cvh worker C05`: reads replay inputs on stdin (one per line), prints hex(html) hex(xml) hex(cm) per line.
-pub fn worker() {
-    let stdin = std::io::stdin();
-    let mut line = String::new();
-    let out = std::io::stdout();
-    let mut out = out.lock();
-    loop {
-        line.clear();
-        if stdin.read_line(&mut line).unwrap_or(0) == 0 {
-            break;
-        }
-        let l = line.trim_end();
-        let r = Src::parse_input(l).and_then(|(o, src)| render_all(&src, &o).ok());
-        match r {
-            Some(r) => {
-                let _ = writeln!(out, "{} {} {}", hex(&r[0]), hex(&r[1]), hex(&r[2]));
+/// One case of the C05 worker (`cvh worker C05`, run under the watchdog of worker.rs):
+///  * `<replay input>`                 -> `R hex(html) hex(xml) hex(cm)` rendered in this (fresh) process
+///  * `seq <input A> || <input B>`     -> renders B on a fresh thread, then A followed by B on another
+///                                        fresh thread; answers `same` or `differs <formatter>`
+pub fn worker_case(line: &str) -> String {
+    if let Some(rest) = line.strip_prefix("seq ") {
+        let (a, b) = match rest.split_once(" || ") {
+            Some(x) => x,
+            None => return "ERR bad-seq".into(),
+        };
+        let (pa, pb) = match (Src::parse_input(a), Src::parse_input(b)) {
+            (Some(x), Some(y)) => (x, y),
+            _ => return "ERR bad-input".into(),
+        };
+        let pb2 = pb.clone();
+        let fresh = std::thread::spawn(move || render_all(&pb2.1, &pb2.0)).join();
+        let after = std::thread::spawn(move || {
+            let _ = render_all(&pa.1, &pa.0);
+            render_all(&pb.1, &pb.0)
+        })
+        .join();
+        return match (fresh, after) {
+            (Ok(Ok(x)), Ok(Ok(y))) => {
+                for w in 0..3 {
+                    if x[w] != y[w] {
+                        return format!("differs {} :: {}", FMT[w], diff_window(&x[w], &y[w]));
+                    }
+                }
+                "same".into()
             }
-            None => {
-                let _ = writeln!(out, "ERR");
-            }
-        }
+            _ => "skipped-panic".into(),
+        };
     }
-}
-
-fn fresh_process(inputs: &[String]) -> Option<Vec<String>> {
-    let exe = std::env::current_exe().ok()?;
-    let mut child = Command::new(exe).arg("worker").arg("C05").stdin(Stdio::piped()).stdout(Stdio::piped()).spawn().ok()?;
-    let mut stdin = child.stdin.take()?;
-    let data = inputs.join("\n") + "\n";
-    let writer = std::thread::spawn(move || {
-        let _ = stdin.write_all(data.as_bytes());
-    });
-    let out = child.wait_with_output().ok()?;
-    let _ = writer.join();
-    Some(String::from_utf8_lossy(&out.stdout).lines().map(|s| s.to_string()).collect())
+    match Src::parse_input(line).and_then(|(o, src)| render_all(&src, &o).ok()) {
+        Some(r) => format!("R {} {} {}", hex(&r[0]), hex(&r[1]), hex(&r[2])),
+        None => "skipped-panic".into(),
+    }
 }
 
 fn source_audit(rep: &mut Report) {
@@ -288,27 +288,75 @@ pub fn run(cfg: &Cfg, rep: &mut Report) {
         }
     }
     bt.run(&m, rep);
-    // fresh processes
-    let procs = if cfg.tier_thorough { 6 } else { 3 };
+    // fresh processes (hash seeds differ per process) and "earlier documents" sequences, in
+    // isolated workers under a wall-clock watchdog (a dependence on earlier documents can also hang)
+    let budget = std::time::Duration::from_secs(20);
     let lines: Vec<String> = inputs.iter().map(|x| x.0.clone()).collect();
-    for _ in 0..procs {
-        match fresh_process(&lines) {
-            None => rep.notes.push("could not spawn the c05 worker process".into()),
-            Some(outs) => {
-                for ((inp, want), got) in inputs.iter().zip(outs.iter()) {
-                    rep.s_evals += 1;
-                    let w = format!("{} {} {}", hex(&want[0]), hex(&want[1]), hex(&want[2]));
-                    if *got != w {
-                        rep.fail("process-run-differs", "any", inp.clone(), "a fresh process produced different bytes for the same input and options".into());
-                    }
-                }
-                rep.add("process-comparisons", outs.len() as u64);
-            }
+    let outs = crate::worker::run_cases("C05", &lines, budget, crate::worker::default_workers());
+    for ((inp, want), got) in inputs.iter().zip(outs.iter()) {
+        rep.s_evals += 1;
+        let w = format!("R {} {} {}", hex(&want[0]), hex(&want[1]), hex(&want[2]));
+        match got {
+            crate::worker::Outcome::Reply(l, _) if *l == w || l == "skipped-panic" => {}
+            crate::worker::Outcome::Reply(_, _) => rep.fail("process-run-differs", "any", inp.clone(), "a fresh process produced different bytes for the same input and options".into()),
+            crate::worker::Outcome::Hang(ms) => rep.fail("process-run-hangs", "any", inp.clone(), format!("no answer within {} ms in a fresh process", ms)),
+            crate::worker::Outcome::Died { how, .. } => rep.fail("process-run-died", "any", inp.clone(), how.clone()),
         }
     }
+    rep.add("process-comparisons", outs.len() as u64);
+    // sequences: B alone vs A then B on one thread; A and B differ in options (per-thread caches keyed too coarsely show here)
+    let mut seqs: Vec<String> = vec![];
+    let nseq = if cfg.tier_thorough { 4000 } else { 600 };
+    for _ in 0..nseq {
+        if lines.len() < 2 {
+            break;
+        }
+        let a = &lines[rng.below(lines.len())];
+        let b = &lines[rng.below(lines.len())];
+        // same subject under options that differ in one extension bit, and unrelated pairs
+        if rng.chance(1, 2) {
+            if let Some((mut o, src)) = Src::parse_input(b) {
+                let i = rng.below(18);
+                o.bits[i] = !o.bits[i];
+                let a2 = src.input(&o);
+                seqs.push(format!("seq {} || {}", a2, b));
+                continue;
+            }
+        }
+        seqs.push(format!("seq {} || {}", a, b));
+    }
+    // curated: syntax whose special characters are enabled by one of two options sharing a table entry
+    for (md, on, off) in [("Water is H~2~O and ~~gone~~.\n", "subscript", "strikethrough"), ("a ^b^ c\n", "superscript", "footnotes"), ("x __u__ y\n", "underline", "smart"), ("||s|| t\n", "spoiler", "table")] {
+        let base = Opts::default();
+        let with_on = base.clone().with(on, true);
+        let with_off = base.clone().with(off, true);
+        for (first, second) in [(&base, &with_on), (&with_off, &with_on), (&with_on, &base), (&with_on, &with_off)] {
+            seqs.push(format!("seq {} || {}", Src::Doc("plain *text*\n".into()).input(first), Src::Doc(md.into()).input(second)));
+        }
+    }
+    let outs = crate::worker::run_cases("C05", &seqs, budget, crate::worker::default_workers());
+    for (sq, got) in seqs.iter().zip(outs.iter()) {
+        rep.s_evals += 1;
+        match got {
+            crate::worker::Outcome::Reply(l, _) if l == "same" || l == "skipped-panic" => {}
+            crate::worker::Outcome::Reply(l, _) => rep.fail("depends-on-earlier-document", "any", sq.clone(), l.clone()),
+            crate::worker::Outcome::Hang(ms) => rep.fail("depends-on-earlier-document", "hang", sq.clone(), format!("rendering after an earlier document did not finish within {} ms", ms)),
+            crate::worker::Outcome::Died { how, .. } => rep.fail("depends-on-earlier-document", "died", sq.clone(), how.clone()),
+        }
+    }
+    rep.add("sequence-comparisons", seqs.len() as u64);
 }
 
 pub fn replay(kind: &str, input: &str) -> Result<Option<String>, String> {
+    if input.starts_with("seq ") {
+        let outs = crate::worker::run_cases("C05", &[input.to_string()], std::time::Duration::from_secs(20), 1);
+        return Ok(match &outs[0] {
+            crate::worker::Outcome::Reply(l, _) if l == "same" || l == "skipped-panic" => None,
+            crate::worker::Outcome::Reply(l, _) => Some(format!("{}: {}", kind, l)),
+            crate::worker::Outcome::Hang(ms) => Some(format!("{}: hang after {} ms", kind, ms)),
+            crate::worker::Outcome::Died { how, .. } => Some(format!("{}: worker died: {}", kind, how)),
+        });
+    }
     let (o, src) = Src::parse_input(input).ok_or("bad replay input")?;
     let m = Model::from_env();
     let mut rep = Report::new("C05");
